@@ -106,8 +106,8 @@ inductive Host
   | addF (f : Fut) (o : Val) (md : Option Int)            -- Future.add
   | addR (h : Nat) (o : Val) (md : Option Int)            -- RegFuture.add
   | ifc (cb : Bool) (c : Cond) (a b : Val) (body : Host)  -- cb: callback form; same commands
-  | loop (start stop step : Int) (body : Host)            -- `with conn.loop(..) as i` (raw register handle)
-  | loopBody (start stop step : Int) (body : Host)        -- `conn.loop_body(fn, ..)`  (RegFuture handle)
+  | loop (rg : Option Nat) (start stop step : Int) (body : Host)      -- `with conn.loop(.., loop_register=rg) as i` (raw register handle)
+  | loopBody (rg : Option Nat) (start stop step : Int) (body : Host)  -- `conn.loop_body(fn, .., loop_register=rg)`  (RegFuture handle)
   | foreach (arr : Nat) (withIdx : Bool) (body : Host)    -- `arr.foreach()` / `arr.enumerate()`
   | loopUntil (maxIter : Int) (body : Host) (ef : Val) (ev : Int) (cleanup : Host)
   | tryUntil (maxTries : Int) (body : Host)
@@ -180,6 +180,15 @@ def takeReg (m : Mem) : Except BuildError (Mem × Nat) :=
   match getInactive m with
   | .error e => .error e
   | .ok i => match activate m i with
+    | .error e => .error e
+    | .ok m' => .ok (m', i)
+
+/-- the loop register of `loop` / `loop_body`: chosen by the SDK (`None`) or named by the application
+(`loop_register="R<i>"`): an explicit register is taken into use, which fails if it already is -/
+def takeAt (m : Mem) : Option Nat → Except BuildError (Mem × Nat)
+  | none => takeReg m
+  | some i =>
+    match activate m i with
     | .error e => .error e
     | .ok m' => .ok (m', i)
 
@@ -444,8 +453,8 @@ def emit (m : Mem) : Host → Except BuildError (Mem × List PCmd)
     match emit m body with
     | .error e => .error e
     | .ok (m1, cs) => buildCondition m1 c a b cs
-  | .loop start stop step body =>
-    match takeReg m with
+  | .loop rg start stop step body =>
+    match takeAt m rg with
     | .error e => .error e
     | .ok (m1, i) =>
       match emit (bindHandle m1 (R i) false) body with
@@ -455,8 +464,8 @@ def emit (m : Mem) : Host → Except BuildError (Mem × List PCmd)
         match release m3 i with
         | .error e => .error e
         | .ok m4 => .ok (m4, out)
-  | .loopBody start stop step body =>
-    match takeReg m with
+  | .loopBody rg start stop step body =>
+    match takeAt m rg with
     | .error e => .error e
     | .ok (m1, i) =>
       match emit (bindHandle m1 (R i) true) body with
